@@ -1,0 +1,1 @@
+//! Hooks for property C39 (empty unless needed).
